@@ -33,6 +33,35 @@ type SmtpMsg struct {
 	FailEarly  bool     `json:"fail_early,omitempty"` // producer fails before emitting data
 	Body       string   `json:"body,omitempty"`
 	BigBody    int      `json:"big_body,omitempty"` // a generated body of this many bytes (lines of text) instead of Body
+	// FailVia (with RenderFail): "" = the body producer fails; "seeker" / "seeker-eof" = an attachment whose
+	// read-seeker source breaks off half-way, with a sentinel error / with an error that wraps io.EOF
+	FailVia string `json:"fail_via,omitempty"`
+	// ToViaAdd: the To list is built with To(first) followed by one AddTo per further address
+	ToViaAdd bool `json:"to_via_add,omitempty"`
+}
+
+// failSeeker: an io.ReadSeeker that delivers the first half of data and then fails, every time
+type failSeeker struct {
+	data []byte
+	pos  int
+	err  error
+}
+
+func (f *failSeeker) Read(p []byte) (int, error) {
+	half := len(f.data) / 2
+	if f.pos >= half {
+		return 0, f.err
+	}
+	n := copy(p, f.data[f.pos:half])
+	f.pos += n
+	return n, nil
+}
+
+func (f *failSeeker) Seek(off int64, whence int) (int64, error) {
+	if whence == io.SeekStart {
+		f.pos = int(off)
+	}
+	return int64(f.pos), nil
 }
 
 type SmtpScenario struct {
@@ -127,7 +156,14 @@ func buildSmtpMsg(i int, sm SmtpMsg) *mail.Msg {
 		_ = m.EnvelopeFrom(sm.EnvFrom)
 	}
 	if len(sm.To) > 0 {
-		_ = m.To(sm.To...)
+		if sm.ToViaAdd {
+			_ = m.To(sm.To[0])
+			for _, v := range sm.To[1:] {
+				_ = m.AddTo(v)
+			}
+		} else {
+			_ = m.To(sm.To...)
+		}
 	}
 	if len(sm.Cc) > 0 {
 		_ = m.Cc(sm.Cc...)
@@ -145,7 +181,14 @@ func buildSmtpMsg(i int, sm SmtpMsg) *mail.Msg {
 		line := fmt.Sprintf("message %d, a line of the big body .......................................\r\n", i)
 		body = strings.Repeat(line, sm.BigBody/len(line)+1)
 	}
-	if sm.RenderFail {
+	if sm.RenderFail && sm.FailVia != "" {
+		m.SetBodyString(mail.TypeTextPlain, body)
+		ferr := error(errProducer)
+		if sm.FailVia == "seeker-eof" {
+			ferr = fmt.Errorf("read chunk 3: connection closed: %w", io.EOF)
+		}
+		m.AttachReadSeeker("report.bin", &failSeeker{data: bytes.Repeat([]byte("attachment data "), 300), err: ferr})
+	} else if sm.RenderFail {
 		content := []byte(body)
 		if sm.FailEarly {
 			content = nil
@@ -223,7 +266,15 @@ func RunScenario(sc *SmtpScenario) (run *SmtpRun, msgs []*mail.Msg) {
 	for _, f := range later {
 		f(client)
 	}
-	ctx, cancel := context.WithCancel(context.Background())
+	// the caller's context: none, or one with a deadline of its own far beyond the configured timeout (the
+	// configured timeout still bounds every network operation)
+	base := context.Background()
+	if sc.Variant != 0 && sc.Variant%3 == 0 {
+		var cancelBase context.CancelFunc
+		base, cancelBase = context.WithTimeout(base, time.Hour)
+		defer cancelBase()
+	}
+	ctx, cancel := context.WithCancel(base)
 	defer cancel()
 	for i, sm := range sc.Msgs {
 		m := buildSmtpMsg(i, sm)
@@ -268,7 +319,7 @@ func RunScenario(sc *SmtpScenario) (run *SmtpRun, msgs []*mail.Msg) {
 			run.Err = client.DialAndSend(msgs...)
 		case 2:
 			// the shared connection of the Client: dial, Send, Close (the wrapping of DialAndSendWithContext mirrored)
-			if err := client.DialWithContext(context.Background()); err != nil {
+			if err := client.DialWithContext(ctx); err != nil {
 				run.Err = fmt.Errorf("dial failed: %w", err)
 				return
 			}
@@ -281,7 +332,7 @@ func RunScenario(sc *SmtpScenario) (run *SmtpRun, msgs []*mail.Msg) {
 				run.Err = fmt.Errorf("failed to close connection: %w", err)
 			}
 		case 3:
-			sc2, err := client.DialToSMTPClientWithContext(context.Background())
+			sc2, err := client.DialToSMTPClientWithContext(ctx)
 			if err != nil {
 				run.Err = fmt.Errorf("dial failed: %w", err)
 				return
@@ -405,7 +456,16 @@ func expectedEnvelope(sm SmtpMsg) (string, []string) {
 		}
 	}
 	var rcpts []string
-	for _, list := range [][]string{sm.To, sm.Cc, sm.Bcc} {
+	for li, list := range [][]string{sm.To, sm.Cc, sm.Bcc} {
+		if li == 0 && sm.ToViaAdd {
+			// To(first), then one AddTo per further value: every value stands for itself
+			for _, v := range list {
+				if a, good := bare(v); good {
+					rcpts = append(rcpts, a)
+				}
+			}
+			continue
+		}
 		var one []string
 		ok := true
 		for _, v := range list {
